@@ -327,6 +327,19 @@ def _reg_ode():
     op("solve_ode_ivp", "LAL", lambda: [[0.0, 1.0], np.array([1.0, 0.5, 1.0]), [0.0, 1.0]],
        lambda v, cb: (lambda s: [s(xs)])(solve_ode_ivp(tuple(v[0]), rhs(cb), v[1], v[2], rtol=1e-10, atol=1e-10)),
        cbs=["fresh", "arg", "cached"])
+    # special coefficient patterns: no lower-order terms (the explicit form is then f / a_K alone), order 1
+    op("solve_ode_ivp[a=(0,0,2)]", "LAL", lambda: [[0.0, 1.0], np.array([0.0, 0.0, 2.0]), [0.0, 1.0]],
+       lambda v, cb: (lambda s: [s(xs)])(solve_ode_ivp(tuple(v[0]), rhs(cb), v[1], v[2], rtol=1e-10, atol=1e-10)),
+       cbs=["fresh", "arg", "cached"])
+    op("solve_ode_ivp[order 1,a=(0,3)]", "LLL", lambda: [[0.0, 1.0], [0, 3.0], [0.5]],
+       lambda v, cb: (lambda s: [s(xs)])(solve_ode_ivp(tuple(v[0]), rhs(cb), v[1], v[2], rtol=1e-10, atol=1e-10)),
+       cbs=["fresh", "arg", "cached"])
+    op("solve_ode_bvp[a=(0,0,2)]", "AAL", lambda: [np.linspace(0.0, 1.0, 12), np.array([0.0, 0.0, 2.0]), [(0, 0, 0.0), (1, 0, 1.0)]],
+       lambda v, cb: (lambda s: [s(xs)])(solve_ode_bvp(v[0], rhs(cb), v[1], v[2], tol=1e-8, initial_guess_y=np.zeros((2, 12)))),
+       cbs=["fresh", "arg", "cached"])
+    op("solve_ode_bvp[order 3,a=(0,0,0,1)]", "AAL", lambda: [np.linspace(0.0, 1.0, 12), np.array([0.0, 0.0, 0.0, 1.0]), [(0, 0, 0.0), (0, 1, 0.0), (1, 0, 1.0)]],
+       lambda v, cb: (lambda s: [s(xs)])(solve_ode_bvp(v[0], rhs(cb), v[1], v[2], tol=1e-8, initial_guess_y=np.zeros((3, 12)))),
+       cbs=["fresh", "arg", "cached"])
     op("solve_ode_ivp[callable coeffs]", "LL", lambda: [[0.0, 1.0], [0.0, 1.0]],
        lambda v, cb: (lambda s: [s(xs)])(solve_ode_ivp(tuple(v[0]), lambda x: np.cos(x), [lambda x: cb.f(x) + 1.0 if cb.fun() == "ident" else cb.f(x), 0.5, 1.0], v[1], rtol=1e-10, atol=1e-10)),
        cbs=["fresh", "cached"])
